@@ -68,6 +68,14 @@ class Method:
 
         return ft.partial(self.method, *method_args, **method_kwargs)
 
+    @property
+    def excluded_params(self) -> Tuple[str, ...]:
+        """
+        Names of the method parameters that are filled in by the dispatcher and are not JSON-RPC parameters.
+        """
+
+        return (self.context,) if self.context else ()
+
     def copy(self, **kwargs: Any) -> 'Method':
         cls_kwargs = dict(name=self.name, context=self.context, positional=self.positional)
         cls_kwargs.update(kwargs)
@@ -133,6 +141,16 @@ class ViewMethod(Method):
             method_params = self.validator.validate_method(method, params, **self.validator_args)
 
         return ft.partial(method, **method_params)
+
+    @property
+    def excluded_params(self) -> Tuple[str, ...]:
+        # the context goes to the view constructor; what the method itself does not take from the request is its
+        # implicit first parameter (``self``), unless it is a static or a class method
+        if isinstance(inspect.getattr_static(self.view_cls, self.method_name), (staticmethod, classmethod)):
+            return ()
+
+        implicit = _implicit_parameter(self.method)
+        return (implicit,) if implicit is not None else ()
 
     def copy(self, **kwargs: Any) -> 'ViewMethod':
         cls_kwargs = dict(name=self.name, context=self.context, positional=self.positional)
